@@ -13,14 +13,14 @@ Strs(n) == SeqsUpTo(Toks, n)
 BStrs(n) == SeqsUpTo(ByteToks, n)
 
 Base == [key |-> <<"a">>, value |-> <<"b">>, domain |-> <<>>, path |-> <<>>, expire |-> "none", maxAge |-> 0,
-         secure |-> FALSE, httpOnly |-> FALSE, sameSite |-> 0, partitioned |-> FALSE]
+         secure |-> FALSE, httpOnly |-> FALSE, sameSite |-> 0, partitioned |-> FALSE, early |-> FALSE]
 Rich == [Base EXCEPT !.domain = <<"a">>, !.maxAge = 5, !.secure = TRUE, !.httpOnly = TRUE, !.sameSite = 2]
 
-\* A: every attribute combination on cookie-octet strings
+\* A: every attribute combination on cookie-octet strings, in both setter orders
 VecA == { [Base EXCEPT !.domain = d, !.path = p, !.expire = e, !.maxAge = m, !.secure = s, !.httpOnly = h,
-                       !.sameSite = ss, !.partitioned = pt] :
+                       !.sameSite = ss, !.partitioned = pt, !.early = ea] :
           d \in {<<>>, <<"a">>}, p \in {<<>>, <<"/", "a">>}, e \in {"none", "t1", "del"}, m \in {0, 1, 3600, -1},
-          s \in BOOLEAN, h \in BOOLEAN, ss \in 0..4, pt \in BOOLEAN }
+          s \in BOOLEAN, h \in BOOLEAN, ss \in 0..4, pt \in BOOLEAN, ea \in BOOLEAN }
 \* B: every string in each string field (paths start with '/': SetPath would add it)
 VecB == UNION { { [b EXCEPT !.key = x], [b EXCEPT !.value = x], [b EXCEPT !.domain = x],
                   [b EXCEPT !.path = <<"/">> \o x] } : x \in Strs(N), b \in {Base, Rich} }
@@ -35,7 +35,10 @@ RespVecs == VecA \cup VecB \cup VecC
 HostileVals == { <<"a">>, <<"b", "=">>, <<"a", ";", " ", "b", "=", "a">>, <<" ">>, <<"\"", "a", "\"">>, <<"\"", "a">> }
 Menu == { <<k, v>> : k \in { <<"a">>, <<"b">>, <<>> }, v \in HostileVals }
 ND == IF N > 3 THEN 2 ELSE N - 1      \* key/value length bound of the single-call request vectors
-ReqVecs == { << <<k, v>> >> : k \in BStrs(ND), v \in BStrs(ND) } \cup SeqsFromTo(Menu, 2, IF N > 2 THEN 3 ELSE 2)
+\* F: the SAME name set again and again, names with ';', CR, LF, '=', blanks
+HostileKeys == { <<"a", ";", "b">>, <<"a", "^", "b">>, <<"a", "$">>, <<"a", "=", "b">>, <<" ", "a">>, <<"a">> }
+MenuF == { <<k, v>> : k \in HostileKeys, v \in { <<"a">>, <<"b">> } }
+ReqVecs == SeqsFromTo(MenuF, 2, IF N > 2 THEN 3 ELSE 2) \cup { << <<k, v>> >> : k \in BStrs(ND), v \in BStrs(ND) } \cup SeqsFromTo(Menu, 2, IF N > 2 THEN 3 ELSE 2)
            \cup { << <<k, v>>, m >> : k \in { <<"a">>, <<>> }, v \in { <<"a">>, <<"\"", "a">> }, m \in Menu }
 
 RECURSIVE Str(_)
@@ -46,12 +49,17 @@ RespRec(c) ==
   LET b == Build(c)  r == RespSeen(c) IN
   [ t |-> "resp", key |-> Str(c.key), value |-> Str(c.value), domain |-> Str(c.domain), path |-> Str(c.path),
     expire |-> c.expire, maxAge |-> c.maxAge, secure |-> c.secure, httpOnly |-> c.httpOnly,
-    sameSite |-> c.sameSite, partitioned |-> c.partitioned,
+    sameSite |-> c.sameSite, partitioned |-> c.partitioned, early |-> c.early,
+    rwire |-> Str(RenderRev(Neutral(b))),    \* the same cookie, attributes in the opposite order
     want |-> WantAttrs(c), octets |-> RespOctets(c),
     okey |-> Str(b.key), ovalue |-> Str(b.value), odomain |-> Str(b.domain), opath |-> Str(b.path),
     refReject |-> r.reject ]
+\* the expectations after EACH call of the sequence
+PrefixRec(ops) == LET j == JarOf(ops, <<>>) IN
+  [ jar |-> Pairs(j), oct |-> Pairs(OctetJar(j)), octets |-> ReqOctets(ops) ]
 ReqRec(ops) ==
   [ t |-> "req", ops |-> [i \in 1..Len(ops) |-> <<Str(ops[i][1]), Str(ops[i][2])>>],
+    steps |-> [i \in 1..Len(ops) |-> PrefixRec(SubSeq(ops, 1, i))],
     jar |-> Pairs(JarOf(ops, <<>>)), octets |-> ReqOctets(ops), oct |-> Pairs(OctetJar(JarOf(ops, <<>>))),
     ref |-> Pairs(ReqSeen(ops)) ]
 
@@ -63,5 +71,6 @@ VARIABLE inp
 Init == inp \in ({ <<"resp", c>> : c \in RespVecs } \cup { <<"req", o>> : o \in ReqVecs })
 Next == UNCHANGED inp
 Spec == Init /\ [][Next]_inp
-RefInv == IF inp[1] = "resp" THEN RespOK(inp[2]) ELSE ReqOK(inp[2])
+RefInv == IF inp[1] = "resp" THEN RespOK(inp[2])
+          ELSE \A i \in 1..Len(inp[2]) : ReqOK(SubSeq(inp[2], 1, i))
 =============================================================================
